@@ -58,11 +58,12 @@ def norm(node: ast.AST) -> str:
 def clear_norm_cache(tree: ast.AST) -> ast.AST:
     """Drop cached normalised texts (needed after copying + rewriting a tree)."""
     for n in ast.walk(tree):
-        if hasattr(n, "_pgv_norm"):
-            try:
-                del n._pgv_norm
-            except AttributeError:
-                pass
+        for attr in ("_pgv_norm", "_pgv_names"):
+            if hasattr(n, attr):
+                try:
+                    delattr(n, attr)
+                except AttributeError:
+                    pass
     return tree
 
 
